@@ -592,23 +592,26 @@ def call_lua_sandbox(
             else:
                 v = candidate
 
-            if (m := re.fullmatch(r"(=+)([^=]+)\1", v)) is not None:
-                return (
+            # Expand all templates, in case the Lua code actually
+            # inspects the output.
+            # <nowiki> and comments are handled before encoding, as
+            # expand() does for page text
+            encoded = ctx._encode(ctx.preprocess_text(v))
+            ctx.expand_stack.append("frame:preprocess()")
+            ret = expand_all_templates(encoded)
+            ctx.expand_stack.pop()
+            if (
+                m := re.fullmatch(r"(=+)([^=]+)\1", v)
+            ) is not None and ret.startswith(m.group(1)):
+                # Text that is a heading line gets a heading strip marker
+                # after the opening equals signs; the text of the heading
+                # is expanded like any other text
+                ret = (
                     m.group(1)
                     + ctx.create_strip_marker("h", m.group(0))
-                    + m.group(2)
-                    + m.group(1)
+                    + ret[len(m.group(1)) :]
                 )
-            else:
-                # Expand all templates, in case the Lua code actually
-                # inspects the output.
-                # <nowiki> and comments are handled before encoding, as
-                # expand() does for page text
-                v = ctx._encode(ctx.preprocess_text(v))
-                ctx.expand_stack.append("frame:preprocess()")
-                ret = expand_all_templates(v)
-                ctx.expand_stack.pop()
-                return ret
+            return ret
 
         def expandTemplate(frame: "_LuaTable", *args) -> str:
             if len(args) < 1:
